@@ -116,6 +116,8 @@ func VerifC06Append(n int, l int) {
 	r.Header.Set("X-Forwarded-For", verifrt.String("attr", l))
 	before := lb.NextBackend(r)
 	nb := verifBackend(n)
+	// the appended backend's name may sort before, between or after the existing names
+	nb.Name = []string{"b9-new", "a-new", "b0a", "B"}[verifrt.Choice("newName", 4)]
 	lb.strategy.AddBackend(nb)
 	after := lb.NextBackend(r)
 	verifrt.Assert(before != nil && after != nil, "a backend is chosen")
